@@ -382,13 +382,26 @@ func init() {
 			}
 			fk := funcKey(f)
 			calls := w.deepCallsTo(f, 1, s.callee)
-			c.Check(len(calls) == 1, fk+" :: recheck after the block", w.pos(f.Pos()), "1 call", fmt.Sprintf("%d recheck calls", len(calls)))
+			var sites []ssa.Instruction
 			for _, dc := range calls {
-				for _, a := range w.necessaryAtoms(f, dc.site) {
+				sites = append(sites, dc.site)
+			}
+			if len(sites) == 0 {
+				// the recheck written out in Update itself: it starts where the recheck cursor is set to the
+				// front of the pool
+				for _, fs := range w.fieldStoresInRaw(f, s.pkg, strings.Split(s.fn, ".")[0], "recheckCursor") {
+					if strings.HasSuffix(w.expr(fs.Store.Val), ".txs.Front()") {
+						sites = append(sites, fs.Store)
+					}
+				}
+			}
+			c.Check(len(sites) == 1, fk+" :: recheck after the block", w.pos(f.Pos()), "1 call", fmt.Sprintf("%d recheck calls", len(sites)))
+			for _, site := range sites {
+				for _, a := range w.necessaryAtoms(f, site) {
 					// rechecking configured; pool not empty; the loop over the block's txs ran to its end; (v1) the
 					// argument-shape assertion that panics otherwise
 					ok := regexp.MustCompile(`^true\(\w+\.config\.Recheck\)$|^0 (<|!=) \w+\.Size\(\)$|^\w+\.Size\(\) (>|!=) 0$|^0 (<|!=) \w+\.txs\.Len\(\)$|^` + fwdIdx + ` >= len\((txs|blockTxs)\)$|^len\(blockTxs\) == len\(deliverTxResponses\)$`).MatchString(a)
-					c.Check(ok, fk+" :: recheck happens after every block", w.ipos(dc.site), a, "the recheck additionally requires ["+a+"]: after a block for which that does not hold, transactions the application no longer accepts stay in the pool")
+					c.Check(ok, fk+" :: recheck happens after every block", w.ipos(site), a, "the recheck additionally requires ["+a+"]: after a block for which that does not hold, transactions the application no longer accepts stay in the pool")
 				}
 			}
 		}
